@@ -32,7 +32,7 @@ fn spec_run(s: &str) -> (i64, Mode) {
 }
 fn spec_complete(s: &str) -> bool { spec_run(s).0 <= 0 }
 
-const ALPHABET: [char; 11] = ['(', ')', '"', '\\', ';', '#', '|', 'a', '1', ' ', '\n'];
+const ALPHABET: [char; 12] = ['(', ')', '"', '\\', ';', '#', '|', 'a', '1', ' ', '\n', '\r'];
 
 fn for_each_string(max_len: usize, f: &mut dyn FnMut(&str)) {
     let mut idx: Vec<usize> = Vec::new();
